@@ -239,9 +239,29 @@ func oracleC10(cx *CheckCtx, runs []*CaseRun) []Finding {
 		ops := renderOps(cr.Case)
 		// only the first render op of each case is replayed with faults
 		o := ops[0]
+		if len(cr.Dis) > 0 {
+			// model and implementation already disagree on this recipe: an expectation derived
+			// from the model's raw bytes would not be about the implementation
+			continue
+		}
 		m := cr.Model[0]
 		raw := m.Raw
 		mis := m.Class == "err:misuse"
+		if o.Kind == OpRender {
+			// the raw source comes from the implementation itself (NoFormat twin of the same recipe)
+			twin, bp := RunReal(cr.Case, &FormChooser{r: NewRng(uint64(ci)*7919 + 1), Fixed: -1}, true)
+			if bp != "" || len(twin) == 0 {
+				continue
+			}
+			switch twin[0].Class {
+			case "ok":
+				raw, mis = twin[0].Out, false
+			case "err:misuse":
+				raw, mis = "", true
+			default:
+				continue
+			}
+		}
 		noFormat := nf[0]
 		fmtOut, fmtOK := "", true
 		if !mis {
